@@ -30,8 +30,23 @@ _EXTRA = {
     'LL':  (('Water', '1-Butanol', 'Octanol', 'EthylAcetate', 'Hexane', 'Ethanol'), {}),
 }
 
+_SPECIAL = {}
+
+def _salt_package():
+    """(Water, Ethanol, Propanol, NaCl[liquid-locked, N_solutes = 2], N2[gas-locked]): a non-volatile DISSOCIATING solute --
+    Chemical.N_solutes is a documented attribute; with N_solutes > 0 the heavy chemical counts in the mole fractions of the flash
+    (z_heavy > 0), a branch no locked chemical of the other packages reaches (their N_solutes defaults to 0)."""
+    if 'SALT' not in _SPECIAL:
+        t = fx.tmo()
+        NaCl = t.Chemical('NaCl', phase='l', default=True)
+        NaCl.N_solutes = 2
+        chems = [t.Chemical('Water', cache=True), t.Chemical('Ethanol', cache=True), t.Chemical('Propanol', cache=True), NaCl, t.Chemical('N2', phase='g')]
+        _SPECIAL['SALT'] = t.Thermo(t.Chemicals(chems))
+    return _SPECIAL['SALT']
+
 def package(name):
     """'VLE', 'ALC', 'HC', 'A', ... ; a trailing 'i' selects the ideal variant of the same chemicals ('ALCi')."""
+    if name == 'SALT': return _salt_package()
     ideal = name.endswith('i') and name[:-1] in (set(fx.PACKAGES) | set(_EXTRA))
     base = name[:-1] if ideal else name
     if base in _EXTRA:
@@ -40,11 +55,13 @@ def package(name):
     return fx.thermo(base, ideal=ideal)
 
 def locked_of(name):
+    if name == 'SALT': return {'NaCl': 'l', 'N2': 'g'}
     base = name[:-1] if name.endswith('i') and name[:-1] in (set(fx.PACKAGES) | set(_EXTRA)) else name
     if base in _EXTRA: return dict(_EXTRA[base][1])
     return dict(fx.LOCKED.get(base, {}))
 
 def package_ids(name):
+    if name == 'SALT': return ('Water', 'Ethanol', 'Propanol', 'NaCl', 'N2')
     base = name[:-1] if name.endswith('i') and name[:-1] in (set(fx.PACKAGES) | set(_EXTRA)) else name
     return _EXTRA[base][0] if base in _EXTRA else fx.PACKAGES[base]
 
@@ -98,7 +115,7 @@ def _fresh_instance(cls, chems):
 # ----------------------------------------------------------------------------------------------------------------
 # configurations  (pkg, comp=(IDs...), mag, dist)
 
-MAGS = ('one', 'lo0', 'hi0', 'lo-1', 'hi-1', 'milli', 'kilo')
+MAGS = ('one', 'lo0', 'hi0', 'lo-1', 'hi-1', 'milli', 'kilo', 'big0', 'big1')
 
 def magnitudes(n, mag):
     """flow of each of the n present chemicals (kmol/hr).  Patterns: all 1; one chemical (first / last) at 1e-3 or
@@ -109,6 +126,8 @@ def magnitudes(n, mag):
     elif mag == 'hi0': v[0] = 1e3
     elif mag == 'lo-1': v[-1] = 1e-3
     elif mag == 'hi-1': v[-1] = 1e3
+    elif mag == 'big0': v[0] = 12.0            # 12 : 1 : 1 ...
+    elif mag == 'big1': v[min(1, n - 1)] = 12.0
     elif mag == 'milli': v = [1e-3] * n
     elif mag == 'kilo': v = [1e3] * n
     elif isinstance(mag, (tuple, list)): v = [float(x) for x in mag]      # explicit flows (C04 compositions)
@@ -412,7 +431,9 @@ def hs_endpoints(st, which, fixed, value):
     stream's present material at fixed P (fixed='P') or fixed T (fixed='T'); bubble / dew points from RefFlash."""
     vol, light, heavy, tot = classify(st)
     d = dense_by_phase(st.s)
-    key = (id(st.th), tuple((p, tuple(np.round(a, 12))) for p, a in sorted(d.items())), which, fixed, float(value))
+    # exact key (bytes of the flows): a cached end point is then bit-identical to a recomputation, so the specification value
+    # never depends on which states the same worker process evaluated before
+    key = (id(st.th), tuple((p, a.tobytes()) for p, a in sorted(d.items())), which, fixed, float(value))
     if key in _END_CACHE: return _END_CACHE[key]
     pool = d.get('g', 0.) + d.get('l', 0.) if ('g' in d or 'l' in d) else np.zeros(len(tot))
     vol = [i for i in vol if pool[i] != 0.]
@@ -498,6 +519,19 @@ def run_call(st, action):
             s.empty()
             if isinstance(s, fx.tmo().MultiStream): s.imol['l', IDs] = flows
             else: s.imol[IDs] = flows
+        elif kind == 'edit':
+            # the user multiplies the flow of ONE chemical (in every phase it sits in) by a factor -- e.g. a trace chemical, so that
+            # every mole fraction moves by less than the solvers' cache tolerances
+            i = s.chemicals.IDs.index(action[1]); f = float(action[2])
+            if isinstance(s, fx.tmo().MultiStream):
+                for p_ in s.phases:
+                    x_ = float(s.imol[p_, action[1]])
+                    if x_: s.imol[p_, action[1]] = x_ * f
+            else:
+                s.imol[action[1]] = float(s.imol[action[1]]) * f
+        elif kind == 'scale':
+            # all flows multiplied in place: composition unchanged (bit-identical for powers of two), magnitude changed
+            s.scale(float(action[1]))
         elif kind == 'pkg':
             # same chemicals (same Chemical objects), other property package: a new stream in the SAME execution, so the
             # process-global interned BubblePoint / DewPoint / Gamma objects created by the earlier calls are still there
@@ -527,7 +561,7 @@ def run_call(st, action):
                             detail=dict(kwargs={k: (v.tolist() if hasattr(v, 'tolist') else v) for k, v in kw.items()}))
         raise Rejected(f'{kind}:{action[1]}:{name}', cut=True)
     st.n_calls += 1
-    if kind in ('refill', 'pkg'):
+    if kind in ('refill', 'pkg', 'edit', 'scale'):
         vol, light, heavy, tot = classify(st)
         cls = dict(nvol=min(len(vol), 3), light=light, heavy=heavy)
     d = dense_by_phase(s)
@@ -536,7 +570,7 @@ def run_call(st, action):
     vl = float(sum(l[i] for i in vol)) if l is not None else 0.
     branch = 'LV' if (vg > 0 and vl > 0) else ('V' if vg > 0 else ('L' if vl > 0 else '0'))
     nph = sum(1 for a in d.values() if a.any())
-    obs = dict(kind=kind, pair=action[1], branch=branch, nphases=nph, T=float(s.T), P=float(s.P), kw=kw, info=info, **cls)
+    obs = dict(kind=kind, pair=str(action[1]), branch=branch, nphases=nph, T=float(s.T), P=float(s.P), kw=kw, info=info, **cls)
     st.last = obs
     return obs
 
